@@ -19,7 +19,8 @@ EXPLANATION = (
     "through `?` only; (R4) the dispatcher's unreachable!(Vectored) is justified by the decoder constructing only "
     "PushPayload::Single.")
 EXPLANATION_ADDED = '(R5) S5/S6: no lock re-entrancy over guard live regions and the in-crate call graph, no blocking guard live across an await; (R6) the per-stream inbound queue is sized from the local rwnd.'
-EXPLANATION = EXPLANATION + " Added while testing against seeded changes: " + EXPLANATION_ADDED
+EXPLANATION_ADDED2 = ' (R7) ack-failure-stops-handoff.'
+EXPLANATION = EXPLANATION + " Added while testing against seeded changes: " + EXPLANATION_ADDED + EXPLANATION_ADDED2
 ASSUMPTIONS = ["combinator calls (Option::and_then/map) invoke in-crate closures at most once (treated as may-effects)",
                "error-propagation paths (`?`) produce prefixes of the full reaction; the maximal effect set per cell is compared"]
 NOT_DECIDED = "general panic-freedom of the dispatcher; behaviour over sequences of frames beyond the per-frame, per-state table"
